@@ -40,6 +40,7 @@ class Prop(common.PropertyCheck):
                 dt = 'I'
                 rows[0].update({'iid': 'FC001', 'time_order': rng.choice(['wrap', 'random'])})
                 rows[0]['units'][0] = rng.choice(['RFI', 'a.u.']); rows[0]['units'][1] = rng.choice(['Channel', 'RFI'])     # channels of resolution 1024 and 256
+                rows[0]['units'][0] = ['AU', 'RFI', 'Au', 'a.u.', 'aU'][(i // 3) % 5]              # arbitrary units without the dots, in any letter case
                 rewrite = True
                 # the list of fluorescence channels is typed with a blank before the first and after the last name (integer data, log amplifiers);
                 # row 0 gives units for both of them
@@ -48,6 +49,8 @@ class Prop(common.PropertyCheck):
                 # a row reporting one calibrated channel in MEF; the other calibrated channel, not reported in MEF, was acquired at another detector voltage
                 rows[1].update({'iid': 'FC001', 'volt_other': {'FL3': 700}})
                 rows[1]['units'][0] = ['MEF', 'mef'][i % 2]; rows[1]['units'][2] = [None, 'RFI', 'Channel'][(i // 3) % 3]
+                # a row whose file does not exist stands first in the table (reported as an error); its units cells are filled in differently from the rows below
+                rows.insert(0, {'iid': 'FC001', 'units': [None, 'RFI', None] if rows[0]['units'][0] is not None else ['RFI', None, 'a.u.'], 'gf': 0.5, 'nonneg': True, 'missing': True})
             elif i % 3 == 1:
                 # double-precision file with events outside the declared range (no saturation gate for floating-point data)
                 dt = 'D'
@@ -100,7 +103,10 @@ class Prop(common.PropertyCheck):
             iid = r['iid']
             fl = ex.inst[iid]['fl']
             fn = 's%d.fcs' % j
-            ex.write_fcs(fn, iid, n=r.get('n', 700), voltage=450, seed=case['seed'] % 1000 + 10 + j, nonneg=r['nonneg'], scatter_out=r.get('scatter_out', False), time_order=r.get('time_order', 'sorted'),
+            if r.get('missing'):
+                fn = 'missing_%d.fcs' % j
+            else:
+              ex.write_fcs(fn, iid, n=r.get('n', 700), voltage=450, seed=case['seed'] % 1000 + 10 + j, nonneg=r['nonneg'], scatter_out=r.get('scatter_out', False), time_order=r.get('time_order', 'sorted'),
                          voltages=r.get('volt_other'), few_nonpos=r.get('few_nonpos', False))
             units = {}
             for c, u in zip(fl, r['units']):
@@ -112,7 +118,7 @@ class Prop(common.PropertyCheck):
                 units[c] = u
             srow.append(excelgen.sample_row('S%d' % j, iid, fn, {c: u for c, u in units.items() if u is not None},
                                             'B1' if iid == 'FC001' else 'B2', gate_fraction=r['gf']))
-            facts.append({'iid': iid, 'units': units, 'file': fn, 'gf': r['gf']})
+            facts.append({'iid': iid, 'units': units, 'file': fn, 'gf': r['gf'], 'missing': bool(r.get('missing'))})
         allcols = ['Instrument ID', 'Beads ID', 'File Path', 'Gate Fraction'] + ['%s Units' % c for d in ex.inst.values() for c in d['fl']]
         samples_table = excelgen.table(srow, columns=allcols)
         if case.get('odd_headers'):
@@ -140,7 +146,7 @@ class Prop(common.PropertyCheck):
                 sid = 'S%d' % j
                 d = ex.inst[f['iid']]
                 got = res[sid]
-                rowout = {'sid': sid, 'facts': {'fsc': d['fsc'], 'ssc': d['ssc'], 'fl': d['fl'], 'units': [[c, f['units'][c]] for c in d['fl']],
+                rowout = {'sid': sid, 'missing': f['missing'], 'facts': {'fsc': d['fsc'], 'ssc': d['ssc'], 'fl': d['fl'], 'units': [[c, f['units'][c]] for c in d['fl']],
                                                 'integer': case['datatype'] == 'I'}}
                 if isinstance(got, Exception):
                     rowout['err'] = str(got)
@@ -241,9 +247,10 @@ class Prop(common.PropertyCheck):
                                 'one of them is an error' if isinstance(a, Exception) or isinstance(b, Exception) else 'events or metadata differ'))
         if case.get('rewrite'):
             # the first sample file is replaced by another acquisition of the same size at the same path; the analysis is run again in this process
-            f0 = facts[0]
-            ex.write_fcs(f0['file'], f0['iid'], n=700, voltage=450, seed=case['seed'] % 1000 + 777, nonneg=case['rows'][0]['nonneg'],
-                         scatter_out=case['rows'][0].get('scatter_out', False), time_order=case['rows'][0].get('time_order', 'sorted'))
+            j0 = next(j for j, f in enumerate(facts) if not f['missing'])
+            f0 = facts[j0]
+            ex.write_fcs(f0['file'], f0['iid'], n=700, voltage=450, seed=case['seed'] % 1000 + 777, nonneg=case['rows'][j0]['nonneg'],
+                         scatter_out=case['rows'][j0].get('scatter_out', False), time_order=case['rows'][j0].get('time_order', 'sorted'))
             out2 = analyse()
             for r in out2['rows']:
                 r['sid'] = r['sid'] + ' (second analysis, after the file at the same path was replaced)'
@@ -254,6 +261,10 @@ class Prop(common.PropertyCheck):
         if 'harness_err' in impl:
             return 'workflow raised: ' + impl['harness_err']
         for r in impl['rows']:
+            if r.get('missing'):
+                if 'err' not in r or 'not found' not in r['err']:
+                    return 'row %s names a file that does not exist but was not reported as such: %s' % (r['sid'], r.get('err', 'processed'))
+                continue
             if 'err' in r:
                 return 'healthy row %s reported an error: %s' % (r['sid'], r['err'])
             if not r['same_sample']:
@@ -265,12 +276,12 @@ class Prop(common.PropertyCheck):
     def model_request(self, case, impl):
         if 'harness_err' in impl or not impl['rows']:
             return None
-        return {'op': 'sample_plan', **impl['rows'][0]['facts']}
+        return {'op': 'sample_plan', **next(r for r in impl['rows'] if not r.get('missing'))['facts']}
 
     def compare(self, case, impl, model):
         if 'driver_error' in model:
             return 'driver: ' + model['driver_error']
-        r = impl['rows'][0]
+        r = next(r for r in impl['rows'] if not r.get('missing'))
         if 'fault' in model:
             return None if 'err' in r else 'model fault %s vs implementation result' % model['fault']
         if 'err' in r:
